@@ -17,7 +17,9 @@ TrCall == /\ IsEvent("scall") /\ Consume /\ pend[Ev.h].op = ""
 (* ---- what each returning call must look like and how it changes the abstract state ---- *)
 Upd(h, r) == sk' = [sk EXCEPT ![h] = r]
 ClosedRule(h) == LIFE => (Ev.ok = 0 /\ Ev.err = NotAvailable /\ Ev.nsys = 0)       \* fails without touching any descriptor
-BlockingWait(r) == LIFE => (IF r.blocking THEN (Ev.npoll >= 1 /\ Ev.pto = (IF r.timeout > 0 THEN r.timeout ELSE -1)) ELSE Ev.npoll = 0)
+(* the last wait of a blocking call: without a timeout it waits indefinitely; with timeout T it waits for what is left of T (an interrupted wait is
+   resumed with the remainder) *)
+BlockingWait(r) == LIFE => (IF r.blocking THEN (Ev.npoll >= 1 /\ (IF r.timeout > 0 THEN (Ev.pto > 0 /\ Ev.pto <= r.timeout) ELSE Ev.pto = -1)) ELSE Ev.npoll = 0)
 TimeoutRule(r) == /\ (Ev.err = TimedOut /\ r.timeout > 0) => Ev.ms >= r.timeout - 1     \* in every mode: never "timed out" before T
                   /\ LIFE => (r.blocking /\ r.timeout > 0 /\ Ev.err = TimedOut /\ Ev.ms >= r.timeout - 1)
 NoBlockErr == IO => Ev.err # WouldBlock
